@@ -24,6 +24,11 @@ THEOREMS = [
     "Mtv.Client.migrate_after_calls",
     "Mtv.Client.other_errors_returned",
     "Mtv.Client.onRpcError_total",
+    "Mtv.Client.held_errors_are_the_callers_own",
+    "Mtv.Client.returned_errors_unaffected_by_holders",
+    "Mtv.Client.returned_after_scribbling",
+    "Mtv.Client.held_error_kept",
+    "Mtv.Client.shared_cells_change_held_errors",
 ]
 RULE = ("operations: every row of specificErrors (regenerated from the source) and every family of the "
         "specification × 26 parameter strings (absent, zero, signed, leading zeros, 2^31, 2^63-1, 2^63, -2^63, "
@@ -44,7 +49,13 @@ RULE = ("operations: every row of specificErrors (regenerated from the source) a
         "session store works / always fails (load-only, read-only) / is slow / is the library's file store / is the file store "
         "with its directory removed, and the data-centre table is made by a HISTORY of SetDCList calls (2-4 calls with disjoint, "
         "overlapping, overriding, repeated, empty arguments, before and after CreateConnection) followed by PHONE_MIGRATE_n for every "
-        "id the history configures (the last call that names it decides) and for ids it does not. distinct = distinct operation "
+        "id the history configures (the last call that names it decides) and for ids it does not; identity of the errors handed out (c17.ident / c17.callers): SEQUENCES of 2-100 replies converted in "
+        "one process (same text with different codes, same family with different parameters, everything the same, every "
+        "catalogued name twice with two codes, unknown texts) where every earlier error is HELD and examined again (code, "
+        "message, description, parameter, Error() text) after all later conversions, where every caller writes into the error "
+        "it was given before the next conversion, from 2-16 goroutines released together, and through the real client (one "
+        "caller per reply: one after the other, all in flight answered in order / in reverse order / each answered after the "
+        "previous caller returned). distinct = distinct operation "
         "lines; each is compared with the Lean model and judged by the independent oracle of the property text")
 
 GEN_LEAN = os.path.join(vlib.LEAN, "Mtv", "Gen", "ErrTables.lean")
